@@ -1,8 +1,8 @@
-\* histories of 30 steps over 3 users (two related by a dotted prefix), 4 passwords, 3 parameter sets
+\* histories of 30 steps over 3 users (named like the file extensions; two related by a dotted prefix, two by letter case), 4 passwords, 3 parameter sets
 INIT SimInit
 NEXT SimNext
 CONSTANTS
-    Users = {"u1", "u1.b", "U1"}
+    Users = {"user", "user.admin", "USER"}
     BadNames = {}
     Pws = {"p1", "p1z", "p2", "p3"}
     Sets = {1, 2, 3}
